@@ -30,6 +30,9 @@ pub struct Scanner<A: Alphabet, M: AsRefPssm<A>, S: AsRefSeq<A, C>, C: PositiveL
     pub pipeline: Pipeline<A, Dispatch>,
 }
 
+/// `a > b` as Rust evaluates it through `PartialOrd::partial_cmp`
+pub open spec fn sgt<T: PartialOrd>(a: T, b: T) -> bool { a.partial_cmp_spec(&b) == Some(core::cmp::Ordering::Greater) }
+
 pub open spec fn sat255(x: int) -> int { if x > 255 { 255 } else { x } }
 /// the byte a real score maps to (DiscreteMatrix::scale); its float arithmetic is uninterpreted (A-F4)
 pub uninterp spec fn scale_spec(offset: f32, factor: f32, score: f32) -> u8;
@@ -63,6 +66,37 @@ impl<A: Alphabet, C: PositiveLength> ScanCfg<A, C> {
         // C08 (assumed here, A-F4): the 8-bit image never under-estimates
         &&& forall|p: int| self.is_hit(p) ==> #[trigger] self.dscore(p) >= self.t()
     }
+    // ---- extra hypotheses used by Scanner::max (C03) ----
+    /// the values `max` compares: the threshold (q = -1) and the exact scores of the valid positions
+    pub open spec fn val(&self, q: int) -> f32 { if q < 0 { self.threshold } else { self.fscore(q) } }
+    /// A-F2 (no NaN): `>=` is a total preorder on those values, and `>=` without `>` is symmetric;
+    /// C08 in its general form (A-F4): the byte score of a position reaches the byte image of any value its real score reaches
+    pub closed spec fn ord_ok(&self) -> bool {
+        &&& forall|p: int, q: int| -1 <= p < self.npos() && -1 <= q < self.npos() ==> sge(self.val(p), self.val(q)) || sge(self.val(q), self.val(p))
+        &&& forall|p: int, q: int, r: int| -1 <= p < self.npos() && -1 <= q < self.npos() && -1 <= r < self.npos()
+                && sge(self.val(p), self.val(q)) && sge(self.val(q), self.val(r)) ==> sge(self.val(p), self.val(r))
+        &&& forall|p: int, q: int| -1 <= p < self.npos() && -1 <= q < self.npos() && sge(self.val(p), self.val(q)) && !sgt(self.val(p), self.val(q))
+                ==> sge(self.val(q), self.val(p))
+        &&& forall|p: int, q: int| 0 <= p < self.npos() && -1 <= q < self.npos() && sge(self.fscore(p), self.val(q))
+                ==> self.dscore(p) >= scale_spec(self.dm.offset, self.dm.factor, self.val(q))
+    }
+    pub proof fn ord_total(&self, p: int, q: int)
+        requires self.ord_ok(), -1 <= p < self.npos(), -1 <= q < self.npos()
+        ensures sge(self.val(p), self.val(q)) || sge(self.val(q), self.val(p))
+    { }
+    pub proof fn ord_trans(&self, p: int, q: int, r: int)
+        requires self.ord_ok(), -1 <= p < self.npos(), -1 <= q < self.npos(), -1 <= r < self.npos(), sge(self.val(p), self.val(q)), sge(self.val(q), self.val(r))
+        ensures sge(self.val(p), self.val(r))
+    { }
+    pub proof fn ord_sym(&self, p: int, q: int)
+        requires self.ord_ok(), -1 <= p < self.npos(), -1 <= q < self.npos(), sge(self.val(p), self.val(q)), !sgt(self.val(p), self.val(q))
+        ensures sge(self.val(q), self.val(p))
+    { }
+    pub proof fn prefilter(&self, p: int, q: int)
+        requires self.ord_ok(), 0 <= p < self.npos(), -1 <= q < self.npos(), sge(self.fscore(p), self.val(q))
+        ensures self.dscore(p) >= scale_spec(self.dm.offset, self.dm.factor, self.val(q))
+    { }
+
     /// buffered hits are genuine, exact, distinct and lie in rows already scanned
     pub open spec fn buf_ok(&self, hits: Seq<Hit>, row: int) -> bool {
         &&& forall|k: int| 0 <= k < hits.len() ==> {
